@@ -634,3 +634,8 @@ mod tests {
     }
     }
 }
+
+// verification hook (guard: cfg(kani), set only by the Kani compiler): harnesses live in /verif/kani
+#[cfg(kani)]
+#[path = "/verif/kani/node.rs"]
+mod verif_kani;
